@@ -105,20 +105,111 @@ def rand_fam(rng, d, kind=None):
     if kind == "corner": return Fam(kind, [(rng.choice([0.9, 0.8, 0.95]),) for _ in range(d)])
 
 
-def rand_region(rng, d, plain=False):
+def rand_region(rng, d, plain=False, rev=0.0, far=0.0):
+    """{first limits..., second limits...}: widths 1e-3..1e3 (log-uniform), offset; rev = probability of an axis with descending limits (the
+    integral then changes sign with every such axis); far = probability of an axis that lies 1e3..1e9 widths away from the origin (at most 1e6)"""
     lo, hi = [], []
     for _ in range(d):
         if plain: a, w = 0.0, 1.0
         else:
             w = 10 ** rng.uniform(-3, 3)
             a = rng.choice([0.0, 1.0, -1.0, rng.uniform(-10, 10), rng.uniform(-1e3, 1e3), -w / 2])
-        lo.append(a); hi.append(a + w)
+            if far and rng.random() < far: a = rng.choice([-1.0, 1.0]) * min(w * 10 ** rng.uniform(3, 9), 1e6)
+        b = a + w
+        if rev and not plain and rng.random() < rev: a, b = b, a
+        lo.append(a); hi.append(b)
     return lo + hi
 
 
-def call_text(method, seed, ncall, region, fam, throw_at=0):
+def reverse_axes(region, axes):
+    r = list(region); d = len(r) // 2
+    for j in axes: r[j], r[j + d] = r[j + d], r[j]
+    return r
+
+
+def call_text(method, seed, ncall, region, fam, throw_at=0, obj=-1):
     d = len(region) // 2
-    return f"{method}{'!' + str(throw_at) if throw_at else ''} {seed} {ncall} {d} " + " ".join(hx(x) for x in region) + " " + fam.text(region)
+    return f"{method}{'!' + str(throw_at) if throw_at else ''}{'@' + str(obj) if obj >= 0 else ''} {seed} {ncall} {d} " + " ".join(hx(x) for x in region) + " " + fam.text(region)
+
+
+# ---------------------------------------------------------------- the spherical front end  Integrate_3D(f(Vector), r1, r2, costheta_1, costheta_2, phi_1, phi_2, ...)
+class SphFam:
+    """F(x,y,z) = c0 + c1 z + c2 (x^2+y^2+z^2) + c3 x^2 of the Vector the front end hands over.  In (r, c = cos theta, phi) what is integrated over the
+    box is r^2 F = c0 r^2 + c1 r^3 c + c2 r^4 + c3 r^4 (1 - c^2) cos^2 phi: monomials coef * r^a * c^b * cos^(2e) phi, whose means over a box are closed forms
+    (a term in z tells cos theta from phi and from r, the term in x^2 tells phi)"""
+    kind = "sph"
+
+    def __init__(self, co): self.co = [float(x) for x in co]
+
+    def text(self, region=None):
+        c0, c1, c2, c3 = self.co
+        return f"+ c {hx(c0)} + * c {hx(c1)} z + * c {hx(c2)} + * x x + * y y * z z * c {hx(c3)} * x x"
+
+    def monos(self):
+        c0, c1, c2, c3 = self.co
+        return [(c0, 2, 0, 0), (c1, 3, 1, 0), (c2, 4, 0, 0), (c3, 4, 0, 1), (-c3, 4, 2, 1)]
+
+    @staticmethod
+    def mean_pow(a, u1, u2): return (u2 ** (a + 1) - u1 ** (a + 1)) / ((a + 1) * (u2 - u1))
+
+    @staticmethod
+    def mean_cos(e, f1, f2):
+        if e == 0: return 1.0
+        if e == 1: P = lambda f: f / 2 + math.sin(2 * f) / 4
+        elif e == 2: P = lambda f: 3 * f / 8 + math.sin(2 * f) / 4 + math.sin(4 * f) / 32
+        else: raise ValueError(e)
+        return (P(f2) - P(f1)) / (f2 - f1)
+
+    def exact_sigma(self, region, ncall):
+        r1, c1, f1, r2, c2, f2 = region
+        V = (r2 - r1) * (c2 - c1) * (f2 - f1)
+        mean = lambda a, b, e: self.mean_pow(a, r1, r2) * self.mean_pow(b, c1, c2) * self.mean_cos(e, f1, f2)
+        ms = self.monos()
+        m1 = math.fsum(k * mean(a, b, e) for (k, a, b, e) in ms)
+        m2 = math.fsum(k * k2 * mean(a + a2, b + b2, e + e2) for (k, a, b, e) in ms for (k2, a2, b2, e2) in ms)
+        return V * m1, abs(V) * math.sqrt(max(m2 - m1 * m1, 0.0) / max(ncall, 1))
+
+    def ann(self): return "sph " + " ".join(hx(x) for x in self.co)
+
+
+DOM3S = [(0.0, 3.0), (-1.0, 1.0), (0.0, 2 * math.pi)]      # r, cos theta, phi
+
+
+def rand_pair(rng, dom=None, v=None, which=0):
+    """one pair of limits in the order in which they are passed; v: the value of limit number `which` (0 = first, 1 = second) of the pair;
+    dom: the interval both limits have to lie in.  Descending with probability about 1/4, never of zero width"""
+    for _ in range(200):
+        if dom:
+            v0 = rng.uniform(*dom) if v is None else v
+            other = rng.uniform(*dom)
+            if abs(other - v0) < 0.15 * (dom[1] - dom[0]): continue
+            if v is None:
+                a, b = min(v0, other), max(v0, other)
+                return (b, a) if rng.random() < 0.25 else (a, b)
+        else:
+            w = rng.uniform(0.3, 1.5) * rng.choice([1, 1, 0.1, 3, 10])
+            v0 = rng.uniform(-5, 5) if v is None else v
+            other = v0 + w * (1 if which == 0 else -1) * (-1 if rng.random() < 0.25 else 1)
+        return (v0, other) if which == 0 else (other, v0)
+    raise ValueError("no admissible pair of limits")
+
+
+def coinciding_limits(rng, d, A, i, B, j, dom=None):
+    """limit pairs of d axes in which limit i (0 = first, 1 = second) of axis A is the same number as limit j of axis B; no axis of zero width"""
+    v = rng.choice([0.0, 0.25, 0.5, 1.0, rng.uniform(0, 1)]) if dom else rng.choice([0.0, 1.0, -1.0, 0.5, 2.0, rng.uniform(-10, 10)])
+    return [rand_pair(rng, dom[k] if dom else None, v if k in (A, B) else None, (i if k == A else j) if k in (A, B) else 0) for k in range(d)]
+
+
+def front_case(rng, op, method, lims, p, tags=()):
+    d = len(lims)
+    region = [a for a, b in lims] + [b for a, b in lims]
+    if op == "front3s":
+        fam = SphFam([rng.uniform(0.5, 2), rng.uniform(-2, 2), rng.uniform(0, 1.5), rng.uniform(0, 2)]); txt = fam.text()
+    else:
+        fam = rand_fam(rng, d, rng.choice(["sepexp", "gauss", "poly"]) if rng.random() < 0.85 else "const")
+        txt = fam.text(region).replace("v 0", "x").replace("v 1", "y").replace("v 2", "z")
+    ls = " ".join(f"{hx(a)} {hx(b)}" for a, b in lims)
+    return Case(f"{op} {method} {rng.randrange(2 ** 32)} {p} {ls} {txt} # {fam.ann()}", (op, method) + tuple(tags))
 
 
 
@@ -180,12 +271,37 @@ def generate(rng, tier):
         for method in MC:
             for d in range(1, 7):
                 for kind in ("const", "sepexp", "gauss", "poly"):
-                    region = rand_region(rng, d, plain=(rng.random() < 0.1))
+                    region = rand_region(rng, d, plain=(rng.random() < 0.1), rev=0.15, far=0.1)
                     fam = rand_fam(rng, d, kind)
                     ncall = rng.choice(budgets)
                     if rng.random() < 0.1: ncall = rng.choice([60, 59, 75, 100, 150, 600])      # Miser: around MNBS and the first split
                     seed = rng.randrange(2 ** 32)
                     cs.append(Case("mc " + call_text(method, seed, ncall, region, fam) + " # " + fam.ann(), ("mc", method, f"dim{d}", kind)))
+    # descending limits on 1, 2, ..., all axes (the integral changes sign with every such axis; the sample points stay between the limits),
+    # constants and smooth integrands
+    for rep in range(3 if big else 1):
+        for method in MC:
+            for d in range(1, 7):
+                for nrev in sorted({1, 2, d, rng.randint(1, d)}):
+                    if nrev > d: continue
+                    kind = rng.choice(["const", "const", "sepexp", "gauss", "poly"])
+                    region = reverse_axes(rand_region(rng, d, far=0.1), rng.sample(range(d), nrev))
+                    fam = rand_fam(rng, d, kind)
+                    cs.append(Case("mc " + call_text(method, rng.randrange(2 ** 32), rng.choice(budgets[:4]), region, fam) + " # " + fam.ann(),
+                                   ("mc", method, f"dim{d}", kind, f"reversed-axes-{nrev}")))
+    # boxes far from the origin: |corner| = 1e3 .. 1e9 widths (the coordinates of the points have few significant digits across the box)
+    for rep in range(3 if big else 1):
+        for method in MC:
+            for d in (1, 2, 3, 6):
+                for kind in ("const", rng.choice(["sepexp", "gauss", "poly"])):
+                    region = rand_region(rng, d, rev=0.15, far=1.0); fam = rand_fam(rng, d, kind)
+                    cs.append(Case("mc " + call_text(method, rng.randrange(2 ** 32), rng.choice(budgets[:4]), region, fam) + " # " + fam.ann(),
+                                   ("mc", method, f"dim{d}", kind, "far-offset")))
+    # arguments left to their defaults: Integrate_MC(f, region, ncalls) (method = "Vegas"), Integrate_MC(f, region) (ncalls = 10000)
+    for m, n in (("dflt", 0), ("dflt", 0), ("dflt", 0), ("dflt2", 10000), ("dflt2", 10000)) + ((("dflt", 0), ("dflt2", 10000)) * 4 if big else ()):
+        d = rng.randint(1, 4) if m == "dflt" else rng.randint(1, 3)
+        region = rand_region(rng, d, rev=0.15); fam = rand_fam(rng, d, rng.choice(["const", "sepexp", "gauss", "poly"]))
+        cs.append(Case("mc " + call_text(m, rng.randrange(2 ** 32), n or rng.choice(budgets[:5]), region, fam) + " # " + fam.ann(), ("mc", "Vegas", "default-arguments")))
     # Miser on integrands with flat parts (no dimension qualifies: the split dimension comes from iran)
     for _ in range(40 if big else 12):
         d = rng.choice([2, 3, 3, 4])
@@ -254,10 +370,10 @@ def generate(rng, tier):
             if k == nh and kind == "corner" and not (method == "Miser" and d <= 3): kind = rng.choice(["sepexp", "gauss", "poly", "const"])
             # Miser: with a flat pre-sample no dimension qualifies for the bisection and the counter iran picks it: the calls on which that counter shows
             if k == nh and method == "Miser" and rng.random() < 0.5: d = rng.choice([2, 3]); kind = "corner"
-            region = rand_region(rng, d, plain=(kind == "corner" and rng.random() < 0.5)); fam = rand_fam(rng, d, kind)
+            region = rand_region(rng, d, plain=(kind == "corner" and rng.random() < 0.5), rev=0.15); fam = rand_fam(rng, d, kind)
             ncall = rng.choice([200, 300, 500, 700, 1000, 2000]) if rng.random() < 0.7 else structured_budget(rng, 200, 4500 if big else 2500, d)
             if ih < nlong and k < nh: ncall = rng.choice([60, 100, 128, 200, 300, 500])
-            calls.append([d, method, rng.randrange(2 ** 32), ncall, region, fam, 0])
+            calls.append([d, method, rng.randrange(2 ** 32), ncall, region, fam, 0, -1])
         obs = calls[-1]
         # the statics belong to the methods: mostly the history contains a call of the observed call's method
         if nh > 0 and rng.random() < 0.6: calls[rng.randrange(nh)][1] = obs_method
@@ -268,6 +384,8 @@ def generate(rng, tier):
                 h[5] = rand_fam(rng, obs[0], rng.choice(["sepexp", "gauss", "poly"]))
                 if rng.random() < 0.7: h[3] = obs[3]
                 if rng.random() < 0.5: h[1] = obs[1]
+                # ... mostly handed over in the very vector object the observed call will be given (a caller that builds its box once)
+                if rng.random() < 0.7: h[7] = obs[7] = 1
         if with_throw:
             # which history calls give up: often the last one, or the last one of the observed call's method
             idx = set()
@@ -281,9 +399,10 @@ def generate(rng, tier):
             if not idx: idx.add(rng.randrange(nh))
             for k in idx:
                 calls[k][6] = rng.choice(throw_positions(rng, calls[k][1], calls[k][3], calls[k][0]))
-        texts = [call_text(m, sd, nc, rg, fm, throw_at=n) for (d, m, sd, nc, rg, fm, n) in calls]
+        texts = [call_text(m, sd, nc, rg, fm, throw_at=n, obj=ob) for (d, m, sd, nc, rg, fm, n, ob) in calls]
         dims = {c[0] for c in calls[:-1]}
         tags = ["hist", obs_method, "mixed-dims" if len(dims) >= 2 else "same-dim"]
+        if obs[7] >= 0: tags.append("shared-region-object")
         if with_throw: tags.append("with-throwing-call")
         if nh == 0: tags.append("repeated")
         cs.append(Case(f"hist {nh} " + " ".join(texts), tuple(tags)))
@@ -301,6 +420,60 @@ def generate(rng, tier):
             texts = [call_text(method, rng.randrange(2 ** 32), nch, rh, rand_fam(rng, dh, rng.choice(["sepexp", "gauss", "poly"])), throw_at=n),
                      call_text(method, rng.randrange(2 ** 32), ncall, ro, rand_fam(rng, d, kind))]
             cs.append(Case("hist 1 " + " ".join(texts), ("hist", method, "same-dim", "with-throwing-call", "shortest")))
+    # one box, built once by the caller and handed to several integrations: a history call of every method on the very vector object the observed
+    # call (every method) is then given, run to its end or brought to an end in the middle; the observed call also before the history, on the same object
+    for rep in range(3 if big else 1):
+        for hm in MC:
+            for om in MC:
+                for ended in (True, False):
+                    d = rng.randint(1, 4); region = rand_region(rng, d, rev=0.15)
+                    nch, ncall = rng.choice([500, 1000, 2000]), rng.choice([500, 1000, 2000])
+                    total = 5 * vegas_layout(nch, d)[3] if hm == "Vegas" else nch
+                    n = rng.randint(2, total - 1) if ended else 0
+                    texts = [call_text(hm, rng.randrange(2 ** 32), nch, region, rand_fam(rng, d, rng.choice(["sepexp", "gauss", "poly"])), throw_at=n, obj=0),
+                             call_text(om, rng.randrange(2 ** 32), ncall, region, rand_fam(rng, d, rng.choice(["const", "sepexp", "gauss", "poly"])), obj=0)]
+                    cs.append(Case("hist 1 " + " ".join(texts), ("hist", om, "same-dim", "shared-region-object") + (("with-throwing-call",) if ended else ())))
+    # integrations under way: the observed (inner) call is made from inside the integrand of another (outer) integration, at every one of its evaluations, on a
+    # box of its own or on the very vector object the outer call was given; each of its values is compared with its value in a fresh process.
+    # (Vegas inside Vegas is left out: its function-local statics, "allowing restarts", include the loop counters, and the outer call never comes to an end.)
+    for rep in range(3 if big else 1):
+        for om in MC:
+            for im in MC:
+                if om == im == "Vegas": continue
+                for shared in (1, 0):
+                    d = rng.randint(1, 3); region = rand_region(rng, d, rev=0.15)
+                    di = d if shared else rng.randint(1, 4)
+                    iregion = region if shared else rand_region(rng, di, rev=0.15)
+                    no = rng.choice([60, 80, 120]) if om != "Vegas" else rng.choice([20, 40, 60])
+                    ni = rng.choice([100, 200, 300]) if im != "Vegas" else rng.choice([60, 100, 200])
+                    texts = [call_text(om, rng.randrange(2 ** 32), no, region, rand_fam(rng, d, rng.choice(["const", "sepexp", "gauss", "poly"]))),
+                             call_text(im, rng.randrange(2 ** 32), ni, iregion, rand_fam(rng, di, rng.choice(["const", "sepexp", "gauss", "poly"])))]
+                    cs.append(Case(f"nested {shared} " + " ".join(texts), ("nested", im, "outer-" + om) + (("shared-region-object",) if shared else ())))
+    # the 2-D / 3-D front ends (and the spherical one of Integrate_3D): every way in which a limit of one axis can be the same number as a limit of
+    # another axis (x1 = y1, x2 = y1, ..., y2 = z1, ...; adjacent intervals, cubes), ascending and descending limits; no axis has zero width
+    for rep in range(3 if big else 1):
+        for op, d, dom in (("front2d", 2, None), ("front3d", 3, None), ("front3s", 3, DOM3S)):
+            for A in range(d):
+                for B in range(A + 1, d):
+                    for i in (0, 1):
+                        for j in (0, 1):
+                            for method in MC:
+                                p = rng.choice([1000, 1000, 2000, 3000])
+                                cs.append(front_case(rng, op, method, coinciding_limits(rng, d, A, i, B, j, dom), p, ("cross-axis-coincidence", f"axis{A}-limit{i}=axis{B}-limit{j}")))
+            for method in MC:
+                a, b = (rng.choice([0.0, 0.25]), 1.0) if dom else sorted(rng.sample([-2.0, -1.0, 0.0, 0.5, 1.0, 3.0], 2))
+                cs.append(front_case(rng, op, method, [(a, b)] * d, rng.choice([1000, 2000]), ("cross-axis-coincidence", "cube")))
+                ch = [0.0, 0.5, 1.0, 2.0] if dom else sorted(rng.sample([-3.0, -1.0, 0.0, 0.5, 1.0, 2.0, 4.0], d + 1))
+                chain = [(ch[k], ch[k + 1]) for k in range(d)]
+                if rng.random() < 0.5 and not dom: chain = chain[::-1]
+                cs.append(front_case(rng, op, method, chain, rng.choice([1000, 2000]), ("cross-axis-coincidence", "adjacent")))
+    # the spherical front end: whole sphere (the default limits of the angles), shells, sectors; default budget (method_parameter 0 = 30000 calls)
+    for rep in range(4 if big else 1):
+        for method in MC:
+            r1 = rng.choice([0.0, rng.uniform(0, 1)]); r2 = r1 + rng.uniform(0.5, 2)
+            cs.append(front_case(rng, "front3s", method, [(r1, r2), (-1.0, 1.0), (0.0, 2 * math.pi)], 0 if (big or method != "Vegas") else 6000, ("whole-sphere",)))
+            for _ in range(2):
+                cs.append(front_case(rng, "front3s", method, [rand_pair(rng, DOM3S[k]) for k in range(3)], rng.choice([1000, 2000, 4096]), ("sector",)))
     # the 2-D / 3-D front ends: anisotropic offset regions, asymmetric integrand
     for _ in range(12 if big else 4):
         for method in MC:
@@ -309,6 +482,7 @@ def generate(rng, tier):
                 base = [0.5, 3.0, 20.0]
                 lo = [base[j] + rng.uniform(0, 0.5) for j in range(d)]; w = [rng.uniform(0.5, 1.5) * (1, 0.3, 10)[j] for j in range(d)]
                 region = lo + [a + b for a, b in zip(lo, w)]
+                region = reverse_axes(region, [j for j in range(d) if rng.random() < 0.2])
                 fam = rand_fam(rng, d, rng.choice(["sepexp", "gauss", "poly"]))
                 p = rng.choice([0, 1000, 2000, 4096, 8192]) if not (method == "Vegas" and big) else rng.choice([0, 2000, 4096])
                 if big and method != "Vegas" and rng.random() < 0.5: p = structured_budget(rng, 1000, 300000, d)
@@ -328,9 +502,28 @@ def parse_mc(line):
 
 
 def split_throw(method):
-    """'Vegas!120' -> ('Vegas', 120); 0 = the integrand never throws"""
-    m, _, n = method.partition("!")
+    """'Vegas!120@1' -> ('Vegas', 120); 0 = the integrand never throws (the number of the caller's vector object is dropped)"""
+    m, _, n = method.partition("@")[0].partition("!")
     return m, (int(n) if n else 0)
+
+
+def split_calls(tokens):
+    """the token lists of the calls that follow one another in a hist / nested line"""
+    calls = []; k = 0
+    while k < len(tokens):
+        d = int(tokens[k + 3]); j = k + 4 + 2 * d
+        # the prefix expression: count operands
+        need = 1
+        while need:
+            t = tokens[j]; j += 1; need -= 1
+            if t in ("+", "-", "*", "/"): need += 2
+            elif t == "pow": need += 1; j += 1
+            elif t in ("c", "v"): j += 1
+            elif t == "pwl": n = int(tokens[j]); j += 1 + 2 * n; need += 1
+            elif t in ("x", "y", "z", "k"): pass
+            else: need += 1          # unary
+        calls.append(tokens[k:j]); k = j
+    return calls
 
 
 def parse_front(line):
@@ -339,7 +532,9 @@ def parse_front(line):
     method, seed, p = t[1], int(t[2]), int(t[3])
     lims = [float.fromhex(x) for x in t[4:4 + 2 * d]]
     region = [lims[2 * j] for j in range(d)] + [lims[2 * j + 1] for j in range(d)]
-    return method, seed, p, d, region, " ".join(t[4 + 2 * d:]), (parse_fam(ann.split()) if ann else None)
+    a = ann.split()
+    fam = None if not a else SphFam([float.fromhex(x) for x in a[1:]]) if a[0] == "sph" else parse_fam(a)
+    return method, seed, p, d, region, " ".join(t[4 + 2 * d:]), fam
 
 
 def aniso(region):
@@ -351,10 +546,13 @@ def aniso(region):
 def nontrivial(c, io):
     op = c.line.split()[0]
     if op == "mc": return aniso(parse_mc(c.line)[4]) and not io.startswith("EXIT")
-    if op in ("front2d", "front3d"): return aniso(parse_front(c.line)[4])
+    if op in ("front2d", "front3d", "front3s"): return aniso(parse_front(c.line)[4]) and not io.startswith("EXIT")
     if op == "hist":
         t = io.split()
-        return (int(c.line.split()[1]) >= 2 and "mixed-dims" in c.tags) or (len(t) == 4 and t[3].isdigit() and int(t[3]) >= 1)
+        return (int(c.line.split()[1]) >= 2 and "mixed-dims" in c.tags) or (len(t) == 5 and t[3].isdigit() and int(t[3]) >= 1)
+    if op == "nested":
+        t = io.split()
+        return len(t) == 6 and t[2].isdigit() and int(t[2]) >= 2
     return False
 
 
@@ -362,16 +560,31 @@ def nontrivial(c, io):
 def check_call(op, method, ncall, d, region, fex, fam, v, out, ended_early=False):
     val, neval = v[0], v[1]; mm = v[3:]
     # evaluation points inside the hyper-rectangle
-    for j in range(d):
-        lo, hi = min(region[j], region[j + d]), max(region[j], region[j + d])
-        if neval > 0 and not (lo <= mm[2 * j] and mm[2 * j + 1] <= hi):
-            out.append((f"{op}:points-inside", f"{method}: coordinate {j} of the evaluation points ranged over [{mm[2*j]!r},{mm[2*j+1]!r}], outside its limits [{lo!r},{hi!r}]"))
+    if op == "front3s":
+        # the Vector handed over: its norm within the limits of r, z / norm within those of cos theta (both recomputed from the rounded components:
+        # a few units of 2^-53), every component at most the larger radius
+        rlo, rhi = sorted((abs(region[0]), abs(region[3]))) if region[0] * region[3] >= 0 else (0.0, max(abs(region[0]), abs(region[3])))
+        clo, chi = sorted((region[1], region[4]))
+        if neval > 0:
+            if not (rlo * (1 - 1e-14) <= mm[6] and mm[7] <= rhi * (1 + 1e-14)):
+                out.append((f"{op}:points-inside", f"{method}: the norm of the vectors handed to the integrand ranged over [{mm[6]!r},{mm[7]!r}], outside the limits of r [{rlo!r},{rhi!r}]"))
+            if rlo > 0 and not (clo - 1e-14 <= mm[8] and mm[9] <= chi + 1e-14):
+                out.append((f"{op}:points-inside", f"{method}: z / norm of the vectors handed to the integrand ranged over [{mm[8]!r},{mm[9]!r}], outside the limits of cos(theta) [{clo!r},{chi!r}]"))
+            if max(abs(x) for x in mm[0:6]) > rhi * (1 + 1e-14):
+                out.append((f"{op}:points-inside", f"{method}: a component of a vector handed to the integrand exceeds the larger radius {rhi!r}"))
+    else:
+        for j in range(d):
+            lo, hi = min(region[j], region[j + d]), max(region[j], region[j + d])
+            if neval > 0 and not (lo <= mm[2 * j] and mm[2 * j + 1] <= hi):
+                out.append((f"{op}:points-inside", f"{method}: coordinate {j} of the evaluation points ranged over [{mm[2*j]!r},{mm[2*j+1]!r}], outside its limits [{lo!r},{hi!r}]"))
     if ended_early: return
     if method in ("Monte-Carlo", "Miser") and neval != ncall:
         out.append((f"{op}:budget", f"{method} evaluated the integrand {neval} times for a budget of {ncall}"))
     if method == "Vegas" and neval > 5 * max(ncall, 2 * 2 ** d):
         # npg = max(ncall / ng^d, 2) points in each of ng^d <= ncall / 2 cells (ng^d = 1 when ncall < 2^(d+1)), five iterations
         out.append((f"{op}:budget", f"{method} evaluated the integrand {neval} times for a budget of {ncall} per iteration (5 iterations)"))
+    if not ended_early and neval == 0 and ncall > 0:
+        out.append((f"{op}:budget", f"{method} returned {val!r} without a single evaluation of the integrand (budget {ncall})"))
     if fam is None: return
     txt = fam.text(region)
     if op != "mc": txt = txt.replace("v 0", "x").replace("v 1", "y").replace("v 2", "z")
